@@ -118,6 +118,18 @@ def consistency(rep, res, entry, rule="R-TYPESTATE"):
                   config=res.config,
                   msg=(f"filters live on {fmt(f)}, signals on {fmt(s)}, but the integration runs over {fmt(d)}: the arrays "
                        f"handed to the integrator are not the three results of one equalisation") if not ok else "")
+    seen = set()
+    for ev in res.events("interp1d"):
+        a_s = ev.d.get("assume_sorted")
+        if a_s is None or (a_s.known and not a_s.const) or (ev.loc, ev.text()) in seen:
+            continue
+        seen.add((ev.loc, ev.text()))
+        x = ev.d["x"]
+        st = True if x.tag("sorted") else (False if a_s.known else None)
+        rep.check(rule, "the interpolator does not assume an ascending domain", st, where=ev.loc, construct=ev.text()[:80], entry=entry,
+                  config=res.config,
+                  msg="interp1d(..., assume_sorted=True) on a domain as the caller listed it: a descending or shuffled (but otherwise valid) "
+                      "domain is treated as out of range everywhere and the array is resampled to the fill value (captures of 0)")
     for ev in res.events("eq_call"):
         for (did, lon, d, a) in ev.d["pairs"]:
             if did is None or lon is None:
